@@ -16,8 +16,12 @@ TRUSTED = [
     "len, spent_budget (copy) — name-mangled private attributes are not 'reachable by a caller'",
 ]
 UNPROVED = [
-    "that the exact-arithmetic total of the recorded spends exceeds the ceiling by at most 1e-12 relative (rounding "
-    "of the float sums) is checked on every run with fractions/decimal, not proved",
+    "that the exact-arithmetic total of the recorded spends exceeds the ceiling by at most 1e-12 relative is checked on "
+    "every run with fractions/decimal. For slack 0 it is proved (sum_fp_bound, sum_fp_bound_binary64: exact sum <= "
+    "ceiling * g^(n-1) <= ceiling * (1 + 1e-12) for n <= 9000 spends) RELATIVE TO the standard model of floating-point "
+    "addition as an explicit hypothesis on the carrier (FpCarrier: 0 + x exact, a + b <= fl(a + b) * g, comparisons "
+    "respect the valuation) — that IEEE binary64 satisfies it is cited, not proved; with slack > 0 (KOV/DRV terms with "
+    "exp/log/sqrt) it is validated numerically only",
 ]
 RULE = ("operation sequences (constructor with prior spends, spend, check, slack change, total, remaining, copy mutation, "
         "re-construction) generated from the seed; each is run on the real BudgetAccountant and on the Lean model "
